@@ -20,6 +20,16 @@ def obligations(tier: str) -> list[Ob]:
     M = "vlib.props.C05"
     K = 4 if q else 6
     to = 400 if q else 3000
+    from ..e2 import harness_ob
+
+    obs.append(
+        harness_ob(
+            "attribute_contracts", "C05_attrs.py", tier, timeout=300 if q else 1200, cpus=5, replay_func="vlib.e2:replay",
+            encoded=["openapi_python_client.parser.properties:property_from_data", "openapi_python_client.parser.properties:_property_from_ref", "openapi_python_client.parser.openapi:Endpoint.from_data", "openapi_python_client.parser.properties.enum_property:EnumProperty.values_from_list", "openapi_python_client:Project.__init__"],
+            stubs=["utils.PythonIdentifier / snake_case / kebab_case -> fixed identifier (identifier derivation is decided by E1; the subject here is that the escape is applied on every constructor route)"],
+            bounds={"document text": "symbolic str, len <= 2 (names, enum values; 3 thorough) / <= 3 (summary, description, title, version)", "property routes": 10},
+        )
+    )
     obs.append(Ob("lexer_validation", "vlib.props.C05:lexer_validation", {}, timeout_s=900, engine="E4"))
     for spec in ("rse_in_dq", "rse_in_docstring", "rse_in_toml", "string_default"):
         obs += spec_obs(M, spec, spec, {}, "kernel_" + spec, list(range(0, (K if spec != "string_default" else min(K, 4)) + 1)), 99, to)
